@@ -312,6 +312,12 @@ fn directed(sh: &mut Shard, tier: Tier) {
             case(sh, "ladder-arguments", &format!("print({})", "1, ".repeat(m)), big);
             case(sh, "ladder-arguments", &format!("functie f(a) {{ a }} f({})", "1, ".repeat(m)), big);
             let params: Vec<String> = (0..m).map(|i| format!("p{i}")).collect();
+            if m <= 1_025 {
+                // as many arguments as parameters, across the limit of the call instruction
+                let args = (0..m).map(|i| i.to_string()).collect::<Vec<_>>().join(", ");
+                case(sh, "ladder-matching-call", &format!("functie f({}) {{ p0 + p{} }} 7 + f({args})", params.join(", "), m - 1), big);
+                case(sh, "ladder-matching-call", &format!("functie f({}) {{ stel l = p{}; l }} [1, f({args})]", params.join(", "), m - 1), big);
+            }
             if m <= 70_000 {
                 case(sh, "ladder-parameters", &format!("functie f({}) {{ p0 }} f(1)", params.join(", ")), big);
                 case(sh, "ladder-locals", &format!("functie f() {{ {} 1 }} f()", params.iter().map(|p| format!("stel {p} = 1; ")).collect::<String>()), big);
